@@ -74,39 +74,39 @@ fn roundtrip<T: Felt252Serde>(x: &T, felts: usize) -> T {
 }
 
 #[kani::proof]
-#[kani::unwind(12)]
+#[kani::unwind(6)]
 fn rt_usize() {
     let x: usize = kani::any();
     assert!(roundtrip(&x, 1) == x, "C18 usize: deserialize(serialize(x)) == x");
 }
 #[kani::proof]
-#[kani::unwind(12)]
+#[kani::unwind(6)]
 fn rt_u64() {
     let x: u64 = kani::any();
     assert!(roundtrip(&x, 1) == x, "C18 u64: deserialize(serialize(x)) == x");
 }
 #[kani::proof]
-#[kani::unwind(12)]
+#[kani::unwind(6)]
 fn rt_statement_idx() {
     let x = StatementIdx(kani::any());
     assert!(roundtrip(&x, 1).0 == x.0, "C18 StatementIdx: deserialize(serialize(x)) == x");
 }
 #[kani::proof]
-#[kani::unwind(12)]
+#[kani::unwind(6)]
 fn rt_concrete_type_id() {
     let x = ConcreteTypeId::new(kani::any());
     let y = roundtrip(&x, 1);
     assert!(y.id == x.id && y.debug_name.is_none(), "C18 ConcreteTypeId: same id, debug_name dropped");
 }
 #[kani::proof]
-#[kani::unwind(12)]
+#[kani::unwind(6)]
 fn rt_concrete_libfunc_id() {
     let x = ConcreteLibfuncId::new(kani::any());
     let y = roundtrip(&x, 1);
     assert!(y.id == x.id && y.debug_name.is_none(), "C18 ConcreteLibfuncId: same id, debug_name dropped");
 }
 #[kani::proof]
-#[kani::unwind(12)]
+#[kani::unwind(6)]
 fn rt_var_id() {
     // one id codec is exercised with a debug name present: it must be dropped, the id kept
     let x = VarId { id: kani::any(), debug_name: if kani::any() { Some("v".into()) } else { None } };
@@ -114,32 +114,45 @@ fn rt_var_id() {
     assert!(y.id == x.id && y.debug_name.is_none(), "C18 VarId: same id, debug_name dropped");
 }
 #[kani::proof]
-#[kani::unwind(12)]
+#[kani::unwind(6)]
 fn rt_function_id() {
     let x = FunctionId::new(kani::any());
     let y = roundtrip(&x, 1);
     assert!(y.id == x.id && y.debug_name.is_none(), "C18 FunctionId: same id, debug_name dropped");
 }
-/// UserTypeId carries a whole felt: any u128 value, then each wide constant.
+/// Six concrete felts of 2, 2, 3, 4, 4, 4 digits: 2^64, 2^128-1 and the four wide constants.
+fn multi_digit(i: usize) -> BigUint {
+    match i {
+        0 => BigUint::new(vec![0, 0, 1]),
+        1 => BigUint::new(vec![u32::MAX; 4]),
+        _ => wide(i - 2),
+    }
+}
+const N_MULTI: usize = 6;
+/// UserTypeId carries a whole felt and its codec never looks at the digits (clone on both sides).
+/// Complete over ids < 2^64; ids of 2..=4 digits on six concrete values (a symbolic two-digit id through
+/// both clones exhausts 22 GB under CBMC - measured).
+//@ props=C18 bound="id < 2^64 symbolic; wider ids in rt_user_type_id_wide"
 #[kani::proof]
-#[kani::unwind(12)]
+#[kani::unwind(6)]
 fn rt_user_type_id() {
-    let v: u128 = kani::any();
+    let v: u64 = kani::any();
     let x = UserTypeId { id: BigUint::from(v), debug_name: None };
     let y = roundtrip(&x, 1);
-    assert!(y.id.to_u128() == Some(v) && y.debug_name.is_none(), "C18 UserTypeId: same id, debug_name dropped");
+    assert!(y.id.to_u64() == Some(v) && y.debug_name.is_none(), "C18 UserTypeId: same id, debug_name dropped");
 }
+//@ props=C18 bound="ids 2^64, 2^128-1, 2^128, 2^200, P-1, 2^256-1"
 #[kani::proof]
-#[kani::unwind(12)]
+#[kani::unwind(40)]
 fn rt_user_type_id_wide() {
-    for i in 0..N_WIDE {
-        let x = UserTypeId { id: wide(i), debug_name: None };
+    for i in 0..N_MULTI {
+        let x = UserTypeId { id: multi_digit(i), debug_name: None };
         let y = roundtrip(&x, 1);
-        assert!(y.id == wide(i) && y.debug_name.is_none(), "C18 UserTypeId (wide felt): same id, debug_name dropped");
+        assert!(y.id == multi_digit(i) && y.debug_name.is_none(), "C18 UserTypeId (multi-digit felt): same id, debug_name dropped");
     }
 }
 #[kani::proof]
-#[kani::unwind(12)]
+#[kani::unwind(6)]
 fn rt_branch_target() {
     let t = if kani::any() {
         BranchTarget::Fallthrough
@@ -154,29 +167,42 @@ fn rt_branch_target() {
 /// P1 documented: the excluded value does collide with the sentinel (so the exclusion is needed and
 /// exact: it is the only value of the type that does not round-trip).
 #[kani::proof]
-#[kani::unwind(12)]
+#[kani::unwind(6)]
 fn rt_branch_target_sentinel_collision() {
     let t = BranchTarget::Statement(StatementIdx(usize::MAX));
     assert!(roundtrip(&t, 1) == BranchTarget::Fallthrough, "C18 BranchTarget: Statement(usize::MAX) decodes as the Fallthrough sentinel (declared exception P1)");
 }
 #[kani::proof]
-#[kani::unwind(12)]
+#[kani::unwind(6)]
 fn rt_version_id() {
     let x = VersionId { major: kani::any(), minor: kani::any(), patch: kani::any() };
     assert!(roundtrip(&x, 3) == x, "C18 VersionId: deserialize(serialize(x)) == x");
 }
+//@ props=C18 bound="user type id < 2^64 symbolic; wider ids in rt_generic_arg_user_type_wide"
 #[kani::proof]
-#[kani::unwind(12)]
+#[kani::unwind(6)]
 fn rt_generic_arg_user_type() {
-    let v: u128 = kani::any();
+    let v: u64 = kani::any();
     let x = GenericArg::UserType(UserTypeId { id: BigUint::from(v), debug_name: None });
     match roundtrip(&x, 2) {
-        GenericArg::UserType(y) => assert!(y.id.to_u128() == Some(v) && y.debug_name.is_none(), "C18 GenericArg::UserType: same id"),
+        GenericArg::UserType(y) => assert!(y.id.to_u64() == Some(v) && y.debug_name.is_none(), "C18 GenericArg::UserType: same id"),
         _ => assert!(false, "C18 GenericArg::UserType: variant preserved"),
     }
 }
+//@ props=C18 bound="user type ids 2^64, 2^128-1, 2^128, 2^200, P-1, 2^256-1"
 #[kani::proof]
-#[kani::unwind(12)]
+#[kani::unwind(40)]
+fn rt_generic_arg_user_type_wide() {
+    for i in 0..N_MULTI {
+        let x = GenericArg::UserType(UserTypeId { id: multi_digit(i), debug_name: None });
+        match roundtrip(&x, 2) {
+            GenericArg::UserType(y) => assert!(y.id == multi_digit(i) && y.debug_name.is_none(), "C18 GenericArg::UserType (multi-digit felt): same id"),
+            _ => assert!(false, "C18 GenericArg::UserType (multi-digit felt): variant preserved"),
+        }
+    }
+}
+#[kani::proof]
+#[kani::unwind(6)]
 fn rt_generic_arg_type() {
     let v: u64 = kani::any();
     match roundtrip(&GenericArg::Type(ConcreteTypeId::new(v)), 2) {
@@ -185,7 +211,7 @@ fn rt_generic_arg_type() {
     }
 }
 #[kani::proof]
-#[kani::unwind(12)]
+#[kani::unwind(6)]
 fn rt_generic_arg_user_func() {
     let v: u64 = kani::any();
     match roundtrip(&GenericArg::UserFunc(FunctionId::new(v)), 2) {
@@ -194,7 +220,7 @@ fn rt_generic_arg_user_func() {
     }
 }
 #[kani::proof]
-#[kani::unwind(12)]
+#[kani::unwind(6)]
 fn rt_generic_arg_libfunc() {
     let v: u64 = kani::any();
     match roundtrip(&GenericArg::Libfunc(ConcreteLibfuncId::new(v)), 2) {
@@ -208,10 +234,11 @@ fn fits_usize(v: u128) -> bool { v <= usize::MAX as u128 }
 fn fits_u64(v: u128) -> bool { v <= u64::MAX as u128 }
 fn small(k: u8) -> BigUint { BigUint::from(k) }
 
-/// Runs the real `T::deserialize` on an iterator over the first `n` of four felts.
+/// Runs the real `T::deserialize` on an iterator over the first `n` of the given felts (the iterator
+/// type is the one `version_id_from_felt252s` builds: a slice iterator mapped to `&BigUint`).
 /// Returns the result and the number of felts it consumed.
-fn deser_n<T: Felt252Serde>(felts: &[BigUint; 4], n: usize) -> (Result<T, Felt252SerdeError>, usize) {
-    let mut it = felts[..n].iter();
+fn deser_n<T: Felt252Serde>(felts: &[&BigUint; 4], n: usize) -> (Result<T, Felt252SerdeError>, usize) {
+    let mut it = felts[..n].iter().map(|f| *f);
     let y = T::deserialize(&mut it);
     (y, n - it.len())
 }
@@ -223,12 +250,13 @@ fn any_len() -> usize {
     kani::cover!(n == 4, "reach:four felts");
     n
 }
-/// One-felt codec whose felt must fit an integer type. `decoded_as(x, v)` says that x is the value the
-/// specification assigns to the felt v.
+/// One-felt codec whose felt must fit an integer type, on every u128-valued felt followed by 0..=3
+/// felts of the next elements. `decoded_as(x, v)` says that x is the value the specification assigns
+/// to the felt v.
 fn total_one_felt<T: Felt252Serde>(fits: fn(u128) -> bool, decoded_as: fn(&T, u128) -> bool) {
-    // (a) every u128-valued felt, followed by felts of the next elements
     let v: u128 = kani::any();
-    let felts = [BigUint::from(v), wide(0), small(3), wide(3)];
+    let (f0, f1, f2) = (BigUint::from(v), small(0), small(3));
+    let felts = [&f0, &f1, &f2, &f1];
     let n = any_len();
     let (y, consumed) = deser_n::<T>(&felts, n);
     assert!(consumed == if n == 0 { 0 } else { 1 }, "C14 deserialize consumes exactly its one felt (none when exhausted)");
@@ -236,63 +264,112 @@ fn total_one_felt<T: Felt252Serde>(fits: fn(u128) -> bool, decoded_as: fn(&T, u1
         Ok(x) => assert!(n >= 1 && fits(v) && decoded_as(x, v), "C14 Ok only when a felt is present and fits; decoded value is the felt's value"),
         Err(_) => assert!((n == 0 || !fits(v)) && is_invalid_input(&y), "C14 Err(InvalidInputForDeserialization) exactly when exhausted or the felt does not fit"),
     }
-    // (b) the wide constants never fit
+}
+/// The same codec on the wide constants (>= 2^128): never fits.
+fn total_one_felt_wide<T: Felt252Serde>(w: &[BigUint; N_WIDE]) {
+    let s = small(1);
     for i in 0..N_WIDE {
-        let felts = [wide(i), small(1), small(2), small(3)];
-        let (y, consumed) = deser_n::<T>(&felts, 2);
+        let felts = [&w[i], &s, &w[(i + 1) % N_WIDE], &s];
+        let (y, consumed) = deser_n::<T>(&felts, 3);
         assert!(consumed == 1 && is_invalid_input(&y), "C14 wide felt (>= 2^128): Err(InvalidInputForDeserialization), one felt consumed, no panic");
     }
 }
+fn wides() -> [BigUint; N_WIDE] { [wide(0), wide(1), wide(2), wide(3)] }
 
 #[kani::proof]
-#[kani::unwind(12)]
+#[kani::unwind(6)]
 fn total_usize() {
     total_one_felt::<usize>(fits_usize, |x, v| *x as u128 == v);
 }
 #[kani::proof]
-#[kani::unwind(12)]
+#[kani::unwind(6)]
 fn total_u64() {
     total_one_felt::<u64>(fits_u64, |x, v| *x as u128 == v);
 }
 #[kani::proof]
-#[kani::unwind(12)]
+#[kani::unwind(6)]
 fn total_statement_idx() {
     total_one_felt::<StatementIdx>(fits_usize, |x, v| x.0 as u128 == v);
 }
 #[kani::proof]
-#[kani::unwind(12)]
+#[kani::unwind(6)]
 fn total_concrete_type_id() {
     total_one_felt::<ConcreteTypeId>(fits_u64, |x, v| x.id as u128 == v && x.debug_name.is_none());
 }
 #[kani::proof]
-#[kani::unwind(12)]
+#[kani::unwind(6)]
 fn total_concrete_libfunc_id() {
     total_one_felt::<ConcreteLibfuncId>(fits_u64, |x, v| x.id as u128 == v && x.debug_name.is_none());
 }
 #[kani::proof]
-#[kani::unwind(12)]
+#[kani::unwind(6)]
 fn total_var_id() {
     total_one_felt::<VarId>(fits_u64, |x, v| x.id as u128 == v && x.debug_name.is_none());
 }
 #[kani::proof]
-#[kani::unwind(12)]
+#[kani::unwind(6)]
 fn total_function_id() {
     total_one_felt::<FunctionId>(fits_u64, |x, v| x.id as u128 == v && x.debug_name.is_none());
 }
 #[kani::proof]
-#[kani::unwind(12)]
+#[kani::unwind(6)]
 fn total_branch_target() {
     total_one_felt::<BranchTarget>(fits_usize, |x, v| match x {
         BranchTarget::Fallthrough => v == usize::MAX as u128,
         BranchTarget::Statement(i) => i.0 as u128 == v && v != usize::MAX as u128,
     });
 }
-/// VersionId = three usize felts; decoding stops at the first felt that is missing or does not fit.
+/// All integer-valued one-felt codecs on the four wide constants (concrete inputs).
 #[kani::proof]
 #[kani::unwind(12)]
+fn total_one_felt_codecs_wide() {
+    let w = wides();
+    total_one_felt_wide::<usize>(&w);
+    total_one_felt_wide::<u64>(&w);
+    total_one_felt_wide::<StatementIdx>(&w);
+    total_one_felt_wide::<ConcreteTypeId>(&w);
+    total_one_felt_wide::<ConcreteLibfuncId>(&w);
+    total_one_felt_wide::<VarId>(&w);
+    total_one_felt_wide::<FunctionId>(&w);
+    total_one_felt_wide::<BranchTarget>(&w);
+}
+/// UserTypeId takes any felt whatsoever: Ok iff a felt is present; the id is that felt.
+#[kani::proof]
+#[kani::unwind(6)]
+fn total_user_type_id() {
+    let v: u128 = kani::any();
+    let (f0, f1) = (BigUint::from(v), small(9));
+    let felts = [&f0, &f1, &f1, &f1];
+    let n = any_len();
+    let (y, consumed) = deser_n::<UserTypeId>(&felts, n);
+    assert!(consumed == if n == 0 { 0 } else { 1 }, "C14 UserTypeId: consumes exactly its one felt (none when exhausted)");
+    match &y {
+        Ok(x) => assert!(n >= 1 && x.id.to_u128() == Some(v) && x.debug_name.is_none(), "C14 UserTypeId: Ok only when a felt is present; id is the felt, no debug name"),
+        Err(_) => assert!(n == 0 && is_invalid_input(&y), "C14 UserTypeId: Err(InvalidInputForDeserialization) exactly when exhausted"),
+    }
+}
+#[kani::proof]
+#[kani::unwind(40)]
+fn total_user_type_id_wide() {
+    let w = wides();
+    let s = small(1);
+    for i in 0..N_WIDE {
+        let felts = [&w[i], &s, &s, &s];
+        let (y, consumed) = deser_n::<UserTypeId>(&felts, 2);
+        assert!(consumed == 1, "C14 UserTypeId (wide felt): consumes exactly one felt");
+        match y {
+            Ok(x) => assert!(x.id == w[i] && x.debug_name.is_none(), "C14 UserTypeId (wide felt): id is the felt"),
+            Err(_) => assert!(false, "C14 UserTypeId (wide felt): accepted, no panic"),
+        }
+    }
+}
+/// VersionId = three usize felts; decoding stops at the first felt that is missing or does not fit.
+#[kani::proof]
+#[kani::unwind(6)]
 fn total_version_id() {
     let v: [u128; 3] = kani::any();
-    let felts = [BigUint::from(v[0]), BigUint::from(v[1]), BigUint::from(v[2]), wide(2)];
+    let (f0, f1, f2, f3) = (BigUint::from(v[0]), BigUint::from(v[1]), BigUint::from(v[2]), small(7));
+    let felts = [&f0, &f1, &f2, &f3];
     let n = any_len();
     let (y, consumed) = deser_n::<VersionId>(&felts, n);
     let mut want_consumed = 0;
@@ -311,64 +388,218 @@ fn total_version_id() {
 #[kani::proof]
 #[kani::unwind(12)]
 fn total_version_id_wide() {
+    let w = wides();
+    let s = small(2);
     for pos in 0..3 {
         for i in 0..N_WIDE {
-            let mut felts = [small(1), small(2), small(3), small(4)];
-            felts[pos] = wide(i);
+            let mut felts = [&s, &s, &s, &s];
+            felts[pos] = &w[i];
             let (y, consumed) = deser_n::<VersionId>(&felts, 4);
             assert!(consumed == pos + 1 && is_invalid_input(&y), "C14 VersionId: wide felt at any of the three positions => Err, stops there, no panic");
         }
     }
 }
-// XXX-EXPERIMENTS-BEGIN
-#[kani::proof]
-#[kani::unwind(8)]
-fn x_v1() {
-    let v: u128 = kani::any();
-    let b = BigUint::from(v);
-    let vals: Vec<&BigUint> = vec![&b];
-    let mut it = vals.into_iter();
-    let y = usize::deserialize(&mut it);
-    assert!(it.len() == 0);
-    if fits_usize(v) { assert!(y == Ok(v as usize)); } else { assert!(y.is_err()); }
+
+// ---------------------------------------------------------------- GenericArg: tag table and totality
+/// The tag table of the specification (DESIGN 4/C18): 0 UserType, 1 Type, 2 Value >= 0, 3 UserFunc,
+/// 4 Libfunc, 5 Value < 0 (magnitude).
+fn spec_tag(x: &GenericArg) -> u64 {
+    match x {
+        GenericArg::UserType(_) => 0,
+        GenericArg::Type(_) => 1,
+        GenericArg::Value(v) => if v.sign() == num_bigint::Sign::Minus { 5 } else { 2 },
+        GenericArg::UserFunc(_) => 3,
+        GenericArg::Libfunc(_) => 4,
+    }
 }
-#[kani::proof]
-#[kani::unwind(8)]
-fn x_v2() {
-    let v: u128 = kani::any();
-    let felts = [BigUint::from(v), small(1), small(2), small(3)];
-    let mut it = felts[..2].iter();
-    let y = usize::deserialize(&mut it);
-    assert!(it.len() == 1);
-    if fits_usize(v) { assert!(y == Ok(v as usize)); } else { assert!(y.is_err()); }
+fn emitted_tag(x: &GenericArg) -> Option<u64> {
+    let mut out: Vec<BigUintAsHex> = Vec::new();
+    let r = x.serialize(&mut out);
+    assert!(r.is_ok() && out.len() == 2, "C18 GenericArg: serialize emits tag and payload (two felts)");
+    out[0].value.to_u64()
 }
+/// serialize side of the table, ids symbolic
+//@ props=C18
 #[kani::proof]
-#[kani::unwind(8)]
-fn x_v3() {
-    let v: u128 = kani::any();
-    let felts = [BigUint::from(v), small(1), small(2), small(3)];
+#[kani::unwind(6)]
+fn tag_table_serialize() {
+    let id: u64 = kani::any();
+    let args = [
+        GenericArg::UserType(UserTypeId { id: BigUint::from(id), debug_name: None }),
+        GenericArg::Type(ConcreteTypeId::new(id)),
+        GenericArg::UserFunc(FunctionId::new(id)),
+        GenericArg::Libfunc(ConcreteLibfuncId::new(id)),
+    ];
+    assert!(emitted_tag(&args[0]) == Some(0), "C18 GenericArg tag table: UserType is serialized with tag 0");
+    assert!(emitted_tag(&args[1]) == Some(1), "C18 GenericArg tag table: Type is serialized with tag 1");
+    assert!(emitted_tag(&args[2]) == Some(3), "C18 GenericArg tag table: UserFunc is serialized with tag 3");
+    assert!(emitted_tag(&args[3]) == Some(4), "C18 GenericArg tag table: Libfunc is serialized with tag 4");
+}
+/// Value tags on concrete samples (the BigInt sign code with symbolic values is out of CBMC's reach;
+/// boundary magnitudes are in the native unit n_felt_serde_bigint).
+//@ props=C18 bound="Value in {0, 7, -7}"
+#[kani::proof]
+#[kani::unwind(12)]
+fn tag_table_serialize_value_samples() {
+    assert!(emitted_tag(&GenericArg::Value(BigInt::from(0))) == Some(2), "C18 GenericArg tag table: Value(0) is serialized with tag 2");
+    assert!(emitted_tag(&GenericArg::Value(BigInt::from(7))) == Some(2), "C18 GenericArg tag table: Value(7) is serialized with tag 2");
+    assert!(emitted_tag(&GenericArg::Value(BigInt::from(-7))) == Some(5), "C18 GenericArg tag table: Value(-7) is serialized with tag 5");
+}
+/// deserialize side of the table and totality: tag and payload are arbitrary u128-valued felts, the
+/// iterator has 0..=4 felts. P3: tags 2 and 5 excluded here.
+#[kani::proof]
+#[kani::unwind(6)]
+fn total_generic_arg() {
+    let tag: u128 = kani::any();
+    let pay: u128 = kani::any();
+    kani::assume(tag != 2 && tag != 5); // P3
+    kani::cover!(tag == 4, "reach:P3 admitted tag");
+    kani::cover!(tag > u64::MAX as u128, "reach:P3 oversize tag");
+    let (f0, f1, f2) = (BigUint::from(tag), BigUint::from(pay), small(1));
+    let felts = [&f0, &f1, &f2, &f2];
+    let n = any_len();
+    let (y, consumed) = deser_n::<GenericArg>(&felts, n);
+    let known_tag = tag == 0 || tag == 1 || tag == 3 || tag == 4;
+    let want_consumed = if n == 0 { 0 } else if !known_tag || n == 1 { 1 } else { 2 };
+    let want_ok = known_tag && n >= 2 && (tag == 0 || fits_u64(pay));
+    assert!(consumed == want_consumed, "C14 GenericArg: consumes tag and payload only (stops after an unknown tag or at exhaustion)");
+    match &y {
+        Ok(x) => {
+            assert!(want_ok, "C14 GenericArg: Ok only for a tag of the table with a payload that fits");
+            assert!(spec_tag(x) as u128 == tag, "C18 GenericArg tag table: deserialize maps each tag back to its variant");
+            let same_payload = match x {
+                GenericArg::UserType(i) => i.id.to_u128() == Some(pay) && i.debug_name.is_none(),
+                GenericArg::Type(i) => i.id as u128 == pay && i.debug_name.is_none(),
+                GenericArg::UserFunc(i) => i.id as u128 == pay && i.debug_name.is_none(),
+                GenericArg::Libfunc(i) => i.id as u128 == pay && i.debug_name.is_none(),
+                GenericArg::Value(_) => false,
+            };
+            assert!(same_payload, "C14 GenericArg: decoded id is the payload felt");
+        }
+        Err(_) => assert!(!want_ok && is_invalid_input(&y), "C14 GenericArg: Err(InvalidInputForDeserialization) exactly when exhausted, tag >= 6 (or not a usize), or the payload does not fit"),
+    }
+}
+/// wide constants as tag (=> Err after one felt) and as payload (ids: Err; UserType: accepted)
+#[kani::proof]
+#[kani::unwind(40)]
+fn total_generic_arg_wide() {
+    let w = wides();
+    let s = small(1);
+    for i in 0..N_WIDE {
+        let felts = [&w[i], &s, &s, &s];
+        let (y, consumed) = deser_n::<GenericArg>(&felts, 4);
+        assert!(consumed == 1 && is_invalid_input(&y), "C14 GenericArg: wide tag => Err(InvalidInputForDeserialization) after one felt, no panic");
+        for tag in [1u8, 3, 4] {
+            let t = small(tag);
+            let felts = [&t, &w[i], &s, &s];
+            let (y, consumed) = deser_n::<GenericArg>(&felts, 4);
+            assert!(consumed == 2 && is_invalid_input(&y), "C14 GenericArg: wide payload for a u64 id => Err(InvalidInputForDeserialization) after two felts, no panic");
+        }
+        let t = small(0);
+        let felts = [&t, &w[i], &s, &s];
+        let (y, consumed) = deser_n::<GenericArg>(&felts, 4);
+        assert!(consumed == 2, "C14 GenericArg::UserType: wide payload consumes two felts");
+        match y {
+            Ok(GenericArg::UserType(u)) => assert!(u.id == w[i], "C14 GenericArg::UserType: wide payload accepted, id is the felt"),
+            _ => assert!(false, "C14 GenericArg::UserType: wide payload accepted"),
+        }
+    }
+}
+/// tags 2 and 5 on concrete samples: Value(payload) and Value(-payload); tag 5 with payload 0 is Value(0)
+//@ bound="tags 2 and 5 with payload in {0, 7}"
+#[kani::proof]
+#[kani::unwind(12)]
+fn total_generic_arg_value_samples() {
+    let s = small(1);
+    for (tag, pay, neg) in [(2u8, 7u8, false), (5, 7, true), (2, 0, false), (5, 0, false)] {
+        let (t, p) = (small(tag), small(pay));
+        let felts = [&t, &p, &s, &s];
+        let (y, consumed) = deser_n::<GenericArg>(&felts, 3);
+        assert!(consumed == 2, "C14 GenericArg::Value: consumes tag and magnitude");
+        match y {
+            Ok(GenericArg::Value(v)) => {
+                assert!(v.magnitude().to_u64() == Some(pay as u64), "C18 GenericArg tag table: tags 2 and 5 decode the magnitude");
+                assert!((v.sign() == num_bigint::Sign::Minus) == neg, "C18 GenericArg tag table: tag 2 => Value >= 0, tag 5 => negated value");
+            }
+            _ => assert!(false, "C14 GenericArg::Value: tags 2 and 5 with a payload are accepted"),
+        }
+        let (y, consumed) = deser_n::<GenericArg>(&felts, 1);
+        assert!(consumed == 1 && is_invalid_input(&y), "C14 GenericArg::Value: missing magnitude => Err(InvalidInputForDeserialization)");
+    }
+}
+
+// ---------------------------------------------------------------- vec_with_bounded_capacity (C14)
+const MAX_REMAINING: usize = 1 << 40; // P2 (A3)
+fn check_bounded_capacity<T>() {
+    let size: usize = kani::any();
+    let max_remaining_size: usize = kani::any();
+    kani::assume(max_remaining_size <= MAX_REMAINING); // P2
+    kani::cover!(max_remaining_size == MAX_REMAINING && size == MAX_REMAINING, "reach:P2 largest admitted allocation");
+    kani::cover!(size > max_remaining_size, "reach:P2 rejected size");
+    let r = vec_with_bounded_capacity::<T>(size, max_remaining_size);
+    match &r {
+        Ok(v) => {
+            assert!(size <= max_remaining_size, "C14 vec_with_bounded_capacity: Ok only when size <= max_remaining_size (allocation bounded by the remaining input)");
+            assert!(v.len() == 0, "C14 vec_with_bounded_capacity: the vector is empty");
+            assert!(v.capacity() == size, "C14 vec_with_bounded_capacity: requested capacity == size");
+        }
+        Err(_) => assert!(size > max_remaining_size && is_invalid_input(&r), "C14 vec_with_bounded_capacity: Err(InvalidInputForDeserialization) exactly when size > max_remaining_size"),
+    }
+}
+//@ props=C14
+#[kani::proof]
+fn bounded_capacity_var_id() { check_bounded_capacity::<VarId>(); }
+//@ props=C14
+#[kani::proof]
+fn bounded_capacity_generic_arg() { check_bounded_capacity::<GenericArg>(); }
+//@ props=C14
+#[kani::proof]
+fn bounded_capacity_function() { check_bounded_capacity::<cairo_lang_sierra::program::Function>(); }
+/// P2 documented: without the bound the real function panics (`capacity overflow`).
+//@ props=C14
+#[kani::proof]
+#[kani::should_panic]
+fn pre_bounded_capacity_panics_without_p2() {
+    let _ = vec_with_bounded_capacity::<VarId>(usize::MAX / 2, usize::MAX);
+}
+
+// ---------------------------------------------------------------- version_id_from_felt252s (C14)
+fn hexes(v: [u128; 6]) -> [BigUintAsHex; 8] {
+    [hex(BigUint::from(v[0])), hex(BigUint::from(v[1])), hex(BigUint::from(v[2])), hex(BigUint::from(v[3])),
+     hex(BigUint::from(v[4])), hex(BigUint::from(v[5])), hex(small(1)), hex(small(2))]
+}
+//@ props=C14 bound="slices of length 0..=8 (only the first six elements and the length are read)"
+#[kani::proof]
+#[kani::unwind(10)]
+fn version_ids_from_felts() {
+    let v: [u128; 6] = kani::any();
+    let arr = hexes(v);
     let n: usize = kani::any();
-    kani::assume(n <= 4);
-    let mut it = felts[..n].iter();
-    let y = usize::deserialize(&mut it);
-    if n > 0 && fits_usize(v) { assert!(y == Ok(v as usize)); } else { assert!(y.is_err()); }
+    kani::assume(n <= 8);
+    kani::cover!(n == 6, "reach:exactly the six version felts");
+    kani::cover!(n == 5, "reach:one felt short");
+    let r = version_id_from_felt252s(&arr[..n]);
+    let fit = fits_usize(v[0]) && fits_usize(v[1]) && fits_usize(v[2]) && fits_usize(v[3]) && fits_usize(v[4]) && fits_usize(v[5]);
+    match &r {
+        Ok((sierra, compiler, rest)) => {
+            assert!(n >= 6 && fit, "C14 version_id_from_felt252s: Ok only when len >= 6 and the six values fit usize");
+            assert!(sierra.major as u128 == v[0] && sierra.minor as u128 == v[1] && sierra.patch as u128 == v[2]
+                && compiler.major as u128 == v[3] && compiler.minor as u128 == v[4] && compiler.patch as u128 == v[5],
+                "C14 version_id_from_felt252s: sierra version = felts 0..3, compiler version = felts 3..6");
+            assert!(rest.len() == n - 6 && (n == 6 || std::ptr::eq(&rest[0], &arr[6])), "C14 version_id_from_felt252s: remaining is exactly the input after the sixth felt");
+        }
+        Err(_) => assert!(!(n >= 6 && fit) && is_invalid_input(&r), "C14 version_id_from_felt252s: Err(InvalidInputForDeserialization) exactly when len < 6 or a value does not fit"),
+    }
 }
+//@ props=C14 bound="length 8, one wide constant at each of the six positions"
 #[kani::proof]
-#[kani::unwind(8)]
-fn x_v4() {
-    let v: u128 = kani::any();
-    let b = BigUint::from(v);
-    let mut it = std::iter::once(&b);
-    let y = usize::deserialize(&mut it);
-    assert!(it.len() == 0);
-    if fits_usize(v) { assert!(y == Ok(v as usize)); } else { assert!(y.is_err()); }
+#[kani::unwind(12)]
+fn version_ids_from_felts_wide() {
+    let w = wides();
+    for pos in 0..6 {
+        let mut arr = hexes([1, 2, 3, 4, 5, 6]);
+        arr[pos] = hex(w[pos % N_WIDE].clone());
+        let r = version_id_from_felt252s(&arr);
+        assert!(is_invalid_input(&r), "C14 version_id_from_felt252s: a wide felt among the six => Err(InvalidInputForDeserialization), no panic");
+    }
 }
-#[kani::proof]
-#[kani::unwind(8)]
-fn x_v5() {
-    let v: u128 = kani::any();
-    let b = BigUint::from(v);
-    let y = b.to_usize();
-    if fits_usize(v) { assert!(y == Some(v as usize)); } else { assert!(y.is_none()); }
-}
-// XXX-EXPERIMENTS-END
